@@ -226,6 +226,62 @@ func c02(r *core.Run) {
 	c02DeclOrder(r)
 	c02PhiOrder(r)
 	c02TripPolarity(r)
+	c02Exact(r)
+}
+
+// c02Exact: whether a literal is abstracted or kept is decided from its exact value. go/constant's fixed-width
+// accessors report inexactness in a second result; deciding on the truncated value lets some large literals
+// (e.g. uint64 values that wrap into the small range) be kept verbatim while all other large literals are
+// abstracted, so replacing one large literal by another changes the fingerprint.
+func c02Exact(r *core.Run) {
+	p := r.P
+	n := 0
+	for _, fn := range p.FuncsIn("pkg/analysis/ir") {
+		core.InstrsOf(fn, func(in ssa.Instruction) {
+			c, ok := in.(*ssa.Call)
+			if !ok {
+				return
+			}
+			switch core.CalleeName(&c.Call) {
+			case "go/constant.Int64Val", "go/constant.Uint64Val", "go/constant.Float64Val", "go/constant.Float32Val":
+			default:
+				return
+			}
+			n++
+			var val, exact *ssa.Extract
+			if refs := c.Referrers(); refs != nil {
+				for _, ref := range *refs {
+					if ex, ok := ref.(*ssa.Extract); ok {
+						if ex.Index == 0 {
+							val = ex
+						} else {
+							exact = ex
+						}
+					}
+				}
+			}
+			ok2 := true
+			why := ""
+			if val != nil && val.Referrers() != nil {
+				if exact == nil {
+					ok2, why = false, "the exactness flag is discarded"
+				} else {
+					for _, ref := range *val.Referrers() {
+						if _, isDbg := ref.(*ssa.DebugRef); isDbg {
+							continue
+						}
+						ev := ssa.Value(exact)
+						ok1, n1, _ := core.MustPass(fn, ref.Block(), core.BoolGuard(func(x ssa.Value) bool { return x == ev }, true))
+						if !(ok1 && n1 > 0) {
+							ok2, why = false, "the value is used on a path where the exactness flag was not tested"
+						}
+					}
+				}
+			}
+			r.Check(ok2, "C02.ABST", core.FuncName(fn)+"#exact-"+strings.TrimPrefix(core.CalleeName(&c.Call), "go/constant."), c.Pos(), "the fixed-width value of a literal is used only when go/constant reports it exact", "a literal's value is taken through "+core.CalleeName(&c.Call)+" and "+why+": literals outside the fixed-width range wrap around and are classified by the wrong value (kept instead of abstracted, or vice versa)")
+		})
+	}
+	r.Floor("C02.ABST", "fixed-width reads of literal values in the literal policy", n, 1)
 }
 
 // c02PhiOrder: a value first mentioned by a phi gets its register name when the phi is written; the operands must
